@@ -9,7 +9,8 @@ use vstd::std_specs::iter::IteratorSpec;
 // (url::Url: prelude/url_foreign.rs)
 
 macro_rules! opaque { ($($n:ident),*) => { $( pub struct $n { _p: u64 } impl Clone for $n { fn clone(&self) -> Self { unimplemented!() } } )* } }
-opaque!(SystemTime, CacheInfo, ImportAttributes, SpecifierError, ResolveError, ModuleLoadError, JsErrorBox, WasmParseError, NpmPackageReqReference, FastCheckDiagnostic, FastCheckDtsModule);
+opaque!(SystemTime, CacheInfo, ImportAttributes, SpecifierError, ResolveError, ModuleLoadError, JsErrorBox, WasmParseError, NpmPackageReqReference, FastCheckDiagnostic, FastCheckDtsModule, PackageSpecifiers);
+pub trait JsErrorClass {}
 pub mod wasm_dep_analyzer { pub use super::WasmParseError as ParseError; }
 pub mod fast_check { pub use super::{FastCheckDiagnostic, FastCheckDtsModule}; }
 
@@ -43,6 +44,8 @@ impl<'a, K, V> IntoIterator for &'a IndexMap<K, V> { type Item = (&'a K, &'a V);
 verus! {
 
 #[verifier::external_type_specification] #[verifier::external_body] pub struct ExSystemTime(SystemTime);
+#[verifier::external_type_specification] #[verifier::external_body] pub struct ExPackageSpecifiersOpaque(PackageSpecifiers);
+#[verifier::external_trait_specification] pub trait ExJsErrorClass { type ExternalTraitSpecificationFor: JsErrorClass; }
 #[verifier::external_type_specification] #[verifier::external_body] pub struct ExCacheInfo(CacheInfo);
 #[verifier::external_type_specification] #[verifier::external_body] pub struct ExImportAttributes(ImportAttributes);
 #[verifier::external_type_specification] #[verifier::external_body] pub struct ExSpecifierError(SpecifierError);
